@@ -183,6 +183,18 @@ def interpolation_history(ctx, rng, n):
                 break
 
 
+def _BASIS_X(x):
+    return x
+
+
+def _BASIS_ONE(x):
+    return 1.0
+
+
+def _BASIS_X2(x):
+    return x * x
+
+
 def curvefitting_history(ctx, rng, n):
     from pymeeus.CurveFitting import CurveFitting
     for _ in range(n):
@@ -201,18 +213,26 @@ def curvefitting_history(ctx, rng, n):
                 steps.append([op, xs, ys])
 
             def views(o):
+                # the basis functions are the SAME function objects for every object and every call
                 return {'linear': lambda: o.linear_fitting(), 'quadratic': lambda: o.quadratic_fitting(),
                         'corr': lambda: o.correlation_coeff(),
-                        'general': lambda: o.general_fitting(lambda x: x, lambda x: 1.0), 'len': lambda: len(o)}
+                        'general': lambda: o.general_fitting(_BASIS_X, _BASIS_ONE),
+                        'general3': lambda: o.general_fitting(_BASIS_X2, _BASIS_X, _BASIS_ONE), 'len': lambda: len(o)}
             if op == 'view':
                 name = rng.choice(['linear', 'quadratic', 'corr', 'general'])
                 _try(views(cf)[name])
                 steps.append(['view', name])
-            fresh = CurveFitting(xs, ys)
-            vc, vf = views(cf), views(fresh)
-            bad = [k for k in sorted(vc) if not _same(_try(vc[k]), _try(vf[k]))]
-            vp, vpf = views(peer), views(CurveFitting(pxs, pys))
-            bad += ['copy.' + k for k in sorted(vp) if not _same(_try(vp[k]), _try(vpf[k]))]
+            # expected values first (fresh objects, evaluated one after the other), then the object under test and
+            # its copy back to back with no construction in between
+            vf = views(CurveFitting(xs, ys))
+            exp_c = {k: _try(vf[k]) for k in sorted(vf)}
+            vpf = views(CurveFitting(pxs, pys))           # built only now: nothing of the first one is in the way
+            exp_p = {k: _try(vpf[k]) for k in sorted(vpf)}
+            vc, vp = views(cf), views(peer)
+            got_c = {k: _try(vc[k]) for k in sorted(vc)}
+            got_p = {k: _try(vp[k]) for k in sorted(vp)}
+            bad = [k for k in sorted(vc) if not _same(got_c[k], exp_c[k])]
+            bad += ['copy.' + k for k in sorted(vp) if not _same(got_p[k], exp_p[k])]
             ctx.predicate('object_history_consistent', not bad, ['CurveFitting', None, list(steps)],
                           {'views_differing_from_a_fresh_object': bad}, 'history/CurveFitting')
             if bad:
